@@ -693,6 +693,24 @@ def run(ctx, res):
         res.count("flavour:repo-sample")
         add_graph(g, {"kind": "sample", "which": label}, None, {"plain": True, "json": True}, False, True, True)
 
+    # the closed witnesses of the _refuted theorems, replayed on the implementation
+    w = {"nodes": [{"name": "a", "outputs": None, "payload": None, "inputs": []},
+                   {"name": "b", "outputs": [], "payload": None, "inputs": [["payload", 0, "0"]]}], "sinks": [1]}
+    gw = build_spec(w)
+    res.evaluations += 1
+    try:
+        from earthkit.workflows.graph import deserialise
+        deserialise(serialise(gw))
+        res.disagree("witness of C12_roundtrip_any_input_name_refuted no longer fails on the implementation (model out of date)", {"kind": "spec", "spec": spec_to_json(w)})
+    except TypeError:
+        res.count("known-signature:" + SIG_RESERVED)
+        if SIG_RESERVED in listed:
+            res.fail(SIG_RESERVED, "input called 'payload' (set through node.inputs): deserialise(serialise(g)) raises TypeError", {"kind": "spec", "spec": spec_to_json(w), "flavour": "reserved-input"})
+    except Exception as e:
+        res.disagree(f"witness of C12_roundtrip_any_input_name_refuted fails with {type(e).__name__} instead of TypeError on the implementation", {"kind": "spec", "spec": spec_to_json(w)})
+    w1 = {"nodes": [{"name": "a", "outputs": None, "payload": None, "inputs": []}], "sinks": [0]}
+    classify(None, build_spec(w1), res, {"kind": "spec", "spec": spec_to_json(w1), "flavour": "witness:C12_sink_rule_before_fix_refuted"}, listed=listed)
+
     if creation:
         res.disagree("deserialise creates nodes in an order different from graphlib's static_order on the same dependencies", {"created": creation[0][0], "graphlib": creation[0][1]})
 
